@@ -47,9 +47,11 @@ SENSOR_TAIL = bytes.fromhex(
 THERMOSTATS = 2
 
 SET_TYPE = {"ecomax": FrameType.REQUEST_SET_ECOMAX_PARAMETER, "mixer": FrameType.REQUEST_SET_MIXER_PARAMETER,
-            "thermostat": FrameType.REQUEST_SET_THERMOSTAT_PARAMETER, "schedule": FrameType.REQUEST_SET_SCHEDULE}
+            "thermostat": FrameType.REQUEST_SET_THERMOSTAT_PARAMETER, "schedule": FrameType.REQUEST_SET_SCHEDULE,
+            "profile": FrameType.REQUEST_SET_THERMOSTAT_PARAMETER}
 REFRESH_TYPE = {"ecomax": FrameType.REQUEST_ECOMAX_PARAMETERS, "mixer": FrameType.REQUEST_MIXER_PARAMETERS,
-                "thermostat": FrameType.REQUEST_THERMOSTAT_PARAMETERS, "schedule": FrameType.REQUEST_SCHEDULES}
+                "thermostat": FrameType.REQUEST_THERMOSTAT_PARAMETERS, "schedule": FrameType.REQUEST_SCHEDULES,
+                "profile": FrameType.REQUEST_ECOMAX_PARAMETERS}   # the profile is an ecoMAX-level parameter
 
 _TABLES = None
 
@@ -67,7 +69,7 @@ def tables():
 
 def _conv_words(kind, row):
     """driver words (cls mnum mden offset precision) as harness/paramdev.conv_words / Model/ParamTables.convOf"""
-    cls = "sw" if row["switch"] else {"ecomax": "so", "mixer": "so", "thermostat": "sc", "schedule": "pl"}[kind]
+    cls = "sw" if row["switch"] else {"ecomax": "so", "mixer": "so", "thermostat": "sc", "schedule": "pl", "profile": "so"}[kind]
     off = row["offset"] if cls == "so" else 0
     return f"{cls} {row['mult_num']} {row['mult_den']} {off} {row['precision']}"
 
@@ -90,6 +92,8 @@ TARGET_IDS = {
     "schedule:intake_summer:s": ("schedule", 0, "intake_summer", "s"),
     "schedule:water_heater_2:p": ("schedule", 0, "water_heater_2", "p"),
     "schedule:heating:s": ("schedule", 0, "heating", "s"),
+    # the thermostat profile: an ecoMAX-level number fed by the thermostat-parameters response
+    "profile": ("profile", 0, 0, None),
 }
 BASE_TARGETS = ("ecomax", "mixer", "thermostat", "schedule")
 PARTNER = {"heating": "heating_circulation", "heating_circulation": "heating", "mixer_10": "mixer_1", "mixer_1": "mixer_10",
@@ -108,6 +112,9 @@ class Target:
             self.partner_index = t["schedules"].index(self.partner)
             self.index = self.sched_index * 2 + (1 if self.part == "p" else 0)
             row = t["tables"]["scheduleParams"][self.index]
+        elif self.kind == "profile":
+            self.index = 0
+            row = t["special"]["thermostatProfile"]
         else:
             self.index = ix
             row = t["tables"][{"ecomax": "ecomaxP", "mixer": "mixerP", "thermostat": "thermostat"}[self.kind]][ix]
@@ -172,6 +179,9 @@ def report_frame(tid, triple):
                     body += _le(3, sz) + _le(0, sz) + _le(200, sz)
         return ThermostatParametersResponse(
             sender=E, message=bytearray(bytes([0, 0, THERMOSTATS * (tg.index + 1)]) + b"\xff\xff\xff" + body))
+    if tg.kind == "profile":     # thermostat-parameters response whose profile triple is the parameter under test
+        return ThermostatParametersResponse(
+            sender=E, message=bytearray(bytes([0, 0, THERMOSTATS, v, lo, hi]) + bytes([3, 0, 200]) * THERMOSTATS))
     if tg.kind == "schedule":    # [_, start, count, per schedule: index, switch, parameter triple, 42 bytes]
         if tg.part == "p":
             rec = bytes([tg.sched_index, 1, v, lo, hi]) + bytes(42)
@@ -207,6 +217,8 @@ def tx_value(tid, frame):
         return m[1] if len(m) == 2 and m[0] == tg.index else None
     if tg.kind == "mixer":
         return m[2] if len(m) == 3 and m[0] == tg.dev and m[1] == tg.index else None
+    if tg.kind == "profile":      # [index 0 + offset 0, value (1 byte)]
+        return m[1] if len(m) == 2 and m[0] == 0 else None
     if tg.kind == "thermostat":   # [index + 1 + thermostat * (parameters per thermostat), value (size bytes)]
         want = tg.index + 1 + tg.dev * (tg.index + 1)
         return int.from_bytes(m[1:], "little") if len(m) == 1 + tg.size and m[0] == want else None
@@ -239,11 +251,13 @@ def ms(t):
 class Rig:
     """one device + one parameter, driven event by event"""
 
-    def __init__(self, kind, tracking, hold, initial, start_ms=0, late=False, via_device=False, display=None):
+    def __init__(self, kind, tracking, hold, initial, start_ms=0, late=False, via_device=False, display=None, fresh=False):
         self.target = target(kind)
         self.tid = kind
         kind = self.kind = self.target.kind
         self.display = display         # value handed to set() instead of the raw value of the call token
+        self.fresh = fresh             # Parameter.set on the object fetched from device.data right before the call
+                                       # (default: on the object the client was handed BEFORE any later report)
         self.tracking = bool(tracking)
         self.via_device = via_device   # call Device.set(name, value, retries) instead of Parameter.set (timeout = default)
         self.late = late      # read the bytes of a queued set request only at the end of the run
@@ -342,7 +356,8 @@ class Rig:
                     holder, name = find_holder(self.device, self.target)
                     self.tasks.append(loop.create_task(holder.set(name, v, retries=r)))
                 else:
-                    self.tasks.append(loop.create_task(self.param.set(v, retries=r, timeout=T / 1000.0)))
+                    handle = find_parameter(self.device, self.target) if self.fresh else self.param
+                    self.tasks.append(loop.create_task(handle.set(v, retries=r, timeout=T / 1000.0)))
         elif p[0] == "b":
             if loop.held:
                 loop.release(0)
@@ -389,15 +404,20 @@ class Tie(Exception):
     """two timers of overlapping calls are due at the same virtual instant: the order is not the property's business"""
 
 
-def run_history(kind, tracking, hold, initial, events_, start_ms=0, late=False, via_device=False, display=None):
+def run_history(kind, tracking, hold, initial, events_, start_ms=0, late=False, via_device=False, display=None, fresh=False):
     """-> (groups: list of output lists per event, final clock ms, local triple at the end)"""
-    rig = Rig(kind, tracking, hold, initial, start_ms, late, via_device, display)
+    rig = Rig(kind, tracking, hold, initial, start_ms, late, via_device, display, fresh)
     try:
         groups = [rig.apply(e) for e in events_]
         rig.resolve()
         if rig.param is None:
             return groups, rig.now(), (-1, -1, -1), False
-        vals = rig.param.values
-        return groups, rig.now(), (vals.value, vals.min_value, vals.max_value), bool(rig.param.pending_update)
+        # the triple the CLIENT sees through device.data now must be the kept object's (parameters are updated in place)
+        now_obj = find_parameter(rig.device, rig.target)
+        if now_obj is not rig.param:
+            groups[-1 if groups else 0:] = (groups[-1:] or [[]])
+            groups[-1].append("X:parameter-object-replaced")
+        vals = now_obj.values
+        return groups, rig.now(), (vals.value, vals.min_value, vals.max_value), bool(now_obj.pending_update)
     finally:
         rig.close()
